@@ -55,18 +55,21 @@ structure Proto where
   start : Int      -- `collection.start` (first part's start for an origin-spanning location)
   len : Int        -- `len(collection.location)`
   product : Int    -- rank of `collection.product`
+  coreStart : Int  -- `int(collection.core_location.start)`
+  coreEnd : Int    -- `int(collection.core_location.end)`
   uid : Int
 deriving DecidableEq, Repr, Inhabited
 
 /-- `reduction(collection)`; `cross` = `self.crosses_origin()`, `L` = `self.location.parts[0].end`
     (the record length for an origin-spanning region); `start < L / 2` ⇔ `2·start < L` -/
-def protoKey (cross : Bool) (L : Int) (p : Proto) : Int × Int × Int :=
-  if cross && decide (2 * p.start < L) then (p.start + L, -p.len, p.product)
-  else (p.start, -p.len, p.product)
+def protoKey (cross : Bool) (L : Int) (p : Proto) : Int × Int × Int × Int × Int :=
+  if cross && decide (2 * p.start < L) then (p.start + L, -p.len, p.product, p.coreStart, p.coreEnd)
+  else (p.start, -p.len, p.product, p.coreStart, p.coreEnd)
 
-/-- tuple comparison `a <= b` of 3-tuples -/
-def keyLe (a b : Int × Int × Int) : Bool :=
-  decide (a.1 < b.1 ∨ (a.1 = b.1 ∧ (a.2.1 < b.2.1 ∨ (a.2.1 = b.2.1 ∧ a.2.2 ≤ b.2.2))))
+/-- tuple comparison `a <= b` of the 5-tuples -/
+def keyLe (a b : Int × Int × Int × Int × Int) : Bool :=
+  decide (a.1 < b.1 ∨ (a.1 = b.1 ∧ (a.2.1 < b.2.1 ∨ (a.2.1 = b.2.1 ∧ (a.2.2.1 < b.2.2.1 ∨ (a.2.2.1 = b.2.2.1 ∧
+    (a.2.2.2.1 < b.2.2.2.1 ∨ (a.2.2.2.1 = b.2.2.2.1 ∧ a.2.2.2.2 ≤ b.2.2.2.2))))))))
 
 def protoLe (cross : Bool) (L : Int) (a b : Proto) : Bool := keyLe (protoKey cross L a) (protoKey cross L b)
 
@@ -78,6 +81,11 @@ def uniqueProtoclusters (cross : Bool) (L : Int) (enum : List Proto) : List Prot
     `(start, -len)` only (`CDSCollection.__lt__` between areas neither of which contains the other) -/
 def protoLeOld (a b : Proto) : Bool := decide (a.start < b.start ∨ (a.start = b.start ∧ -a.len ≤ -b.len))
 def uniqueProtoclustersOld (enum : List Proto) : List Proto := sortBy protoLeOld enum
+
+/-- between D54 and D61 the key was `(start, −len, product)` without the core -/
+def protoLeNoCore (a b : Proto) : Bool :=
+  decide (a.start < b.start ∨ (a.start = b.start ∧ (-a.len < -b.len ∨ (-a.len = -b.len ∧ a.product ≤ b.product))))
+def uniqueProtoclustersNoCore (enum : List Proto) : List Proto := sortBy protoLeNoCore enum
 
 /-! ### `CDSResults.to_json`, `CDSResults.annotate`, `run_on_record` (D51, D51b, D53) -/
 
